@@ -345,6 +345,20 @@ def nlri_json_content(fam, o, b: bytes, addpath: bool, action, doc, what: str) -
     if fam in gen.IP_FAMILIES and isinstance(doc, dict):
         from vlib.refwire import codec
 
+        if fam[1] in (4, 128) and action == Action.WITHDRAW:
+            # a withdraw whose label field holds 0x000000 / 0x800000 after a first label without bottom-of-stack can be read two
+            # ways (the compatibility value ends the field, or it is one more label): the labels of a withdraw carry no meaning
+            # (RFC 8277 2.4) and neither reading is wrong, so the reference says nothing about where the prefix starts
+            off = (4 if addpath else 0) + 1
+            first = True
+            while off + 3 <= len(b):
+                chunk = b[off : off + 3]
+                if not first and chunk in (b'\x00\x00\x00', b'\x80\x00\x00'):
+                    return
+                if chunk[2] & 1 or (first and chunk in (b'\x00\x00\x00', b'\x80\x00\x00')):
+                    break
+                first = False
+                off += 3
         try:
             ref = codec.decode_nlri(b, fam[0], fam[1], addpath, action == Action.WITHDRAW)
         except codec.Malformed:
@@ -726,6 +740,16 @@ def attr_json_content(code: int, a, b: bytes, doc, what: str, values: bool = Tru
         raise V(f'{tag}:content', f'{what} {b.hex()}: the bytes say {expect}, the JSON says {value}')
 
 
+def _has_empty_segment(value: bytes, width: int) -> bool:
+    pos = 0
+    while pos + 2 <= len(value):
+        count = value[pos + 1]
+        if count == 0:
+            return True
+        pos += 2 + count * width
+    return False
+
+
 def check_attr(case: dict) -> dict:
     exa.reset_global_state()
     code, flags = case['code'], case['flags']
@@ -784,6 +808,10 @@ def check_attr(case: dict) -> dict:
             raise V(f'{tag}:{name}:differs-between-copies', f'{what} {x.hex()}: {r1[name][:200]} vs {r2[name][:200]}')
     if r1['json']:
         attr_json_content(code, a, x, parse_json(f'{tag}:json', r1['json'], f'{what} {x.hex()}'), what, values=False)
+    if code in (2, 17) and not encoder and _has_empty_segment(x, 4 if (asn4 or code == 17) else 2):
+        # a segment of zero AS numbers is malformed input (RFC 7606 7.2; that it is accepted is C08's listed finding): ExaBGP drops it
+        # when it packs, so the object born from these bytes is not one its encoder can produce and the round-trip laws say nothing
+        return {'nontrivial': False, 'classes': sorted(set(classes + [tag, f'{tag}:empty-segment:not-canonical']))}
     attr_laws(code, flag, a, neg, x, encoder, what)
     classes += [tag, f'{tag}:{type(a).__name__}']
     if not asn4:
